@@ -16,6 +16,8 @@ CONSTANTS
   Prompt = @PROMPT@
   History = @HISTORY@
   OwnBucket = @OWNBUCKET@
+  CheckThenTake = @CHECKTHENTAKE@
+  ClosingSkipsTake = @CLOSINGSKIPS@
 SYMMETRY Symm
 INVARIANTS @INVS@
 CHECK_DEADLOCK FALSE
